@@ -183,8 +183,10 @@ impl Prop for C02 {
                         let size: u32 = *rng.pick(&[0u32, 11, 12, 13, 64, 8192, 65535, 65536, u32::MAX]);
                         b[4..8].copy_from_slice(&size.to_le_bytes());
                     }
-                    // never let the real code allocate gigabytes: a limit is always configured
-                    lim.max_msg = *rng.pick(&[1usize, 12, 64, 8192, 65535]);
+                    // never let the real code allocate gigabytes: a limit is configured unless the declared size
+                    // (as it stands in the bytes) is small; 0 = unlimited is part of the contract too
+                    let declared = if b.len() >= 8 { u32::from_le_bytes([b[4], b[5], b[6], b[7]]) } else { 0 };
+                    lim.max_msg = if declared <= 65536 && rng.chance(1, 3) { 0 } else { *rng.pick(&[1usize, 12, 64, 8192, 65535]) };
                 }
                 out.push(format!("dec {} {} x{}", ty, lim.show(), hex(&b)));
             }
